@@ -103,6 +103,9 @@ pub fn contain_case<S: PageSize>(r: &mut Rep, x: u64) {
         if s % sz != 0 || s > x || x - s >= sz || p.size() != sz {
             r.viol(&format!("C06|Page<{}>::containing_address|wrong", S::DEBUG_STR), &case, &format!("{:#x}", s));
         }
+        if x % sz == 0 && (unsafe { Page::<S>::from_start_address_unchecked(v) }.start_address().as_u64() != x || Page::<S>::from_start_address(v).ok() != Some(unsafe { Page::<S>::from_start_address_unchecked(v) })) {
+            r.viol(&format!("C06|Page<{}>::from_start_address_unchecked|changes-an-aligned-address", S::DEBUG_STR), &case, "");
+        }
         match Page::<S>::from_start_address(v) {
             Ok(q) => {
                 if x % sz != 0 || q.start_address().as_u64() != x {
@@ -123,6 +126,9 @@ pub fn contain_case<S: PageSize>(r: &mut Rep, x: u64) {
         if s % sz != 0 || s > x || x - s >= sz || p.size() != sz {
             r.viol(&format!("C06|PhysFrame<{}>::containing_address|wrong", S::DEBUG_STR), &case, &format!("{:#x}", s));
         }
+        if x % sz == 0 && (unsafe { PhysFrame::<S>::from_start_address_unchecked(v) }.start_address().as_u64() != x || PhysFrame::<S>::from_start_address(v).ok() != Some(unsafe { PhysFrame::<S>::from_start_address_unchecked(v) })) {
+            r.viol(&format!("C06|PhysFrame<{}>::from_start_address_unchecked|changes-an-aligned-address", S::DEBUG_STR), &case, "");
+        }
         match PhysFrame::<S>::from_start_address(v) {
             Ok(q) => {
                 if x % sz != 0 || q.start_address().as_u64() != x {
@@ -138,9 +144,12 @@ pub fn contain_case<S: PageSize>(r: &mut Rep, x: u64) {
     }
 }
 
-fn addr_set(k: u32) -> Vec<u64> {
+fn addr_set(k: u32, wide: &Option<Vec<u64>>) -> Vec<u64> {
     let al = 1u128 << k;
-    let mut v = b64();
+    let mut v = match wide {
+        Some(w) => w.clone(),
+        None => b64(),
+    };
     // multiples of the alignment near 0, the gap, 2^52 and 2^64, +-1
     for anchor in [0u128, 1u128 << 47, (1u128 << 64) - (1u128 << 47), 1u128 << 52, 1u128 << 64] {
         let m = anchor / al;
@@ -181,11 +190,12 @@ pub fn run(a: &Args) {
         return;
     }
     let mut r = Rep::new("C06", &format!("align-{}", profile()));
+    let wide = Some(b64_wide());
     for k in 0..64u32 {
         if k as usize % a.nshards != a.shard {
             continue;
         }
-        for x in addr_set(k) {
+        for x in addr_set(k, &wide) {
             guarded(&mut r, "C06|align/is_aligned|unexpected-panic", || format!("raw {:#x} {}", x, k), |r| raw_case(r, x, k));
         }
     }
@@ -205,8 +215,13 @@ pub fn run(a: &Args) {
             nonpow_case(&mut r, al);
         }
     }
-    if a.shard == 0 {
+    {
         let mut all = b64();
+        if let Some(w) = &wide {
+            all = w.iter().copied().enumerate().filter(|(i, _)| i % a.nshards == a.shard).map(|(_, x)| x).collect();
+            let m: Vec<u64> = all.iter().flat_map(|&x| [sext48(x), x & ((1u64 << 52) - 1)]).collect();
+            all.extend(m);
+        }
         all.extend(canon());
         all.extend(phys());
         all.sort_unstable();
@@ -220,6 +235,9 @@ pub fn run(a: &Args) {
     r.sample("raw 0x7fffffffffff 21  (VirtAddr::align_up crosses the gap)".into());
     r.sample("nonpow 0x3000".into());
     r.sample("contain 1GiB 0xffff80003fffffff".into());
+    {
+        r.note("the address alphabet is every u64 with <=3 set bits, <=3 clear bits, every contiguous run of ones (~90k values), their sign-extended and 52-bit-truncated images");
+    }
     r.note("all 64 power-of-two alignments x (B64 + multiples of the alignment around 0, the gap, 2^52, 2^64 +-1); ~2000 non-powers of two (2^k+-1, 2^k|2^j, small) must panic");
     r.emit();
 }
